@@ -338,6 +338,40 @@ def run_case(case):
                     res["violations"].append({"key": f"defaults_{wname}_other_exception|{type(e).__name__}", "what": pipeline.exc_text(e) + f" :: {srcd.splitlines()[0]} given={given}"})
                 add("wrapper_calls")
                 add("defaults_calls")
+    # ---------------------------------------------------------------- derived functions
+    # a decorated variant of a function that was ALREADY dispatched (functools.wraps copies the
+    # attributes of f onto g): every dispatcher must map g, not anything remembered about f
+    if not po:
+        import functools as _ft
+        import jax as _jax
+
+        @_ft.wraps(f)
+        def g(*a, **k):
+            return _jax.tree_util.tree_map(lambda x: 3.0 * x, f(*a, **k))
+
+        coef3 = {x: 3.0 * c for x, c in coef.items()}
+        k = int(rng.integers(1, n + 1))
+        sub = [str(x) for x in rng.permutation(names)[:k]]
+        for dname, build, layout in (("productmap", lambda: D.productmap(g, list(sub)), [[x] for x in sub]),
+                                     ("vmap_1d", lambda: D.vmap_1d(g, list(sub)), [sub]),
+                                     ("spacemap", lambda: D.spacemap(g, dense_vars=list(sub[:1]), sparse_vars=list(sub[1:]), put_dense_first=True), [[x] for x in sub[:1]] + ([sub[1:]] if sub[1:] else []))):
+            vals = values_for(layout)
+            try:
+                got = call_kw(build(), vals)
+            except Exception as e:  # noqa: BLE001
+                res["violations"].append({"key": pipeline.exc_key(e, "derived_" + dname), "what": pipeline.exc_text(e) + f" :: {dname} of a functools.wraps-decorated variant of {src.splitlines()[0]}"})
+                continue
+            add("derived_function_calls")
+            compare(got, expected(coef3, vals, sub, layout), out, res, f"{dname} of g = wraps(f)(3 * f) after f itself was dispatched ({src.splitlines()[0]} variables={sub})", add)
+        try:
+            got = FT.allow_args(g)(**{x: sc[x] for x in names})
+            want = 3.0 * float(sum(coef[x] * sc[x] for x in names))
+            got0 = got if out == "scalar" else (got[0] if out == "tuple" else got["u"])
+            add("derived_function_calls")
+            if not abs(float(got0) - want) <= 1e-9 * (1 + abs(want)):
+                res["violations"].append({"key": "derived_allow_args_entry_mismatch", "what": f"allow_args(g) with g = wraps(f)(3 * f) returned {float(got0)!r}, expected {want!r}"})
+        except Exception as e:  # noqa: BLE001
+            res["violations"].append({"key": pipeline.exc_key(e, "derived_allow_args"), "what": pipeline.exc_text(e)})
     res["features"] = {"kinds_" + "-".join(sorted(set(kinds))): True, "out_" + out: True}
     res["sig"] = f"{kinds}{out}"
     res["nontrivial"] = n >= 2
